@@ -149,7 +149,13 @@ func recurseValidationCode(att *expr.AttributeExpr, put expr.UserType, attCtx *A
 		if keyVal != "" {
 			keyVal = "\n" + keyVal
 		}
-		valueVal := validateAttribute(ctx, m.ElemType, put, "v", context+"[key]", true, view)
+		elemCtx := ctx
+		if _, ok := m.ElemType.Type.(expr.UserType); ok && !expr.IsPrimitive(m.ElemType.Type) {
+			// Map elements of user type use the same (pointer) fields as any
+			// other user type: validate them accordingly.
+			elemCtx = attCtx
+		}
+		valueVal := validateAttribute(elemCtx, m.ElemType, put, "v", context+"[key]", true, view)
 		if valueVal != "" {
 			valueVal = "\n" + valueVal
 		}
